@@ -72,7 +72,9 @@ def _case(rng, fam, gseed, cfgd):
         case["x0"] = "none"
     # any scipy.sparse format may come back from a user's callback
     if rng.random() < 0.25:
-        case["fmt"] = str(rng.choice(["dia", "bsr", "lil", "dok"]))
+        case["fmt"] = str(rng.choice(["dia", "diaj", "bsr", "lil", "dok"]))
+        if rng.random() < 0.3 and fam in ("QP", "NLP"):
+            case["gopts"] = dict(case.get("gopts", {}), row_force=["eq"] * 12)
     return case
 
 
